@@ -22,6 +22,6 @@ if [ "${4:-}" != "--no-suite" ]; then
   PYTHONPATH="$W/src" timeout 900 /venv/bin/python -m pytest -q -p no:cacheprovider --timeout=900 tests 2>&1 | tail -1
 fi
 echo "== ./check $PROP $TIER against the change"
-cd /verif && PYCEL_SRC="$W/src" ./check "$PROP" "$TIER" 2>&1 | grep -E "violation tag|VIOLATION|HARNESS|KNOWN|distinct_nontrivial" | cut -c1-260
+cd "${VERIF_DIR:-/verif}" && PYCEL_SRC="$W/src" ./check "$PROP" "$TIER" 2>&1 | grep -E "violation tag|VIOLATION|HARNESS|KNOWN|distinct_nontrivial" | cut -c1-260
 echo "exit=$?"
 git -C /repo worktree remove --force "$W"
